@@ -665,36 +665,49 @@ fn replay_cmd(args: &[String]) -> Result<i32, String> {
 // ---------------------------------------------------------------------------------------------
 
 fn selfcheck(args: &[String]) -> Result<i32, String> {
+    // Determinism proof: for several VERIF_SEED values, every property's first n runs are executed at 1, 4 and 16
+    // worker processes (different process layouts, different run-to-process assignment) and at 16 a second time;
+    // all trace hashes must agree run by run.
     let n: u64 = args.get(2).and_then(|s| s.parse().ok()).unwrap_or(20_000);
     println!("entropy seam canary: {}", crate::entropy::canary()?);
-    let seed = env_seed();
+    let seed0 = env_seed();
+    let mut report = String::new();
     for p in props::all() {
         let id = p.id();
-        let mut base: Option<BTreeMap<u64, u64>> = None;
-        for workers in [1u64, 4, 16] {
-            let b = run_batch(id, seed, n, workers, "-", n, 0)?;
-            let mut m = BTreeMap::new();
-            for r in &b.results {
-                if !r.finished {
-                    return Err(format!("{id}: worker did not finish: {}", r.stderr));
+        // process-spawning properties are two orders of magnitude slower per run
+        let n = if id == "C12" { (n / 10).max(500) } else { n };
+        for seed in [seed0, seed0 + 1, seed0 + 2] {
+            let mut base: Option<BTreeMap<u64, u64>> = None;
+            for workers in [1u64, 4, 16, 16] {
+                let b = run_batch(id, seed, n, workers, "-", n, 0)?;
+                let mut m = BTreeMap::new();
+                for r in &b.results {
+                    if !r.finished {
+                        return Err(format!("{id}: worker did not finish: {}", r.stderr));
+                    }
+                    for (run, t) in &r.ends {
+                        m.insert(*run, *t);
+                    }
                 }
-                for (run, t) in &r.ends {
-                    m.insert(*run, *t);
-                }
-            }
-            match &base {
-                None => base = Some(m),
-                Some(b0) => {
-                    let diff = b0.iter().filter(|(k, v)| m.get(k) != Some(v)).count();
-                    if diff > 0 || b0.len() != m.len() {
-                        println!("SELF-CHECK FAILED: {id}: {diff} of {} traces differ at {workers} workers", b0.len());
-                        return Ok(2);
+                match &base {
+                    None => base = Some(m),
+                    Some(b0) => {
+                        let diff = b0.iter().filter(|(k, v)| m.get(k) != Some(v)).count();
+                        if diff > 0 || b0.len() != m.len() {
+                            println!("SELF-CHECK FAILED: {id} seed {seed}: {diff} of {} traces differ at {workers} workers", b0.len());
+                            return Ok(2);
+                        }
                     }
                 }
             }
-            println!("{id}: {n} runs at {workers} workers in {:.1}s", b.wall);
+            let line = format!("{id}: VERIF_SEED={seed}: {n} runs, traces identical across 1 / 4 / 16 / 16 worker processes");
+            println!("{line}");
+            report.push_str(&line);
+            report.push('\n');
         }
-        println!("{id}: traces identical across 1/4/16 worker processes");
     }
+    let path = format!("{}/evidence/SELFCHECK.txt", verif_dir());
+    let _ = std::fs::write(&path, report);
+    println!("self-check passed; summary written to {path}");
     Ok(0)
 }
